@@ -18,7 +18,7 @@ ASSUMPTIONS = [
 COMPONENTS = {"real": ["Exchange", "LimitOrderBook", "Broker", "Trade", "Rebalancing", "BrokerFees", "contracts"],
               "harness": ["user-defined AbstractContract subclasses", "Fraction ledger"], "stub": []}
 PROBE_FLOORS = {"two_margined_open": 100, "three_margined_open": 20, "negative_cash": 10,
-                "flat_after_close_zero_margin": 30, "flip_through_zero": 30}
+                "flat_after_close_zero_margin": 30, "flip_through_zero": 30, "weights_queried_before_any_valuation": 1500}
 
 PROFILE = {
     "oracles": ["c05"],
